@@ -719,8 +719,42 @@ impl VerifCopy for CachedItem {
     }
 }
 
+/// Real clock (no override): the hook must leave the SystemTime path intact. Stores, looks up at once, waits until the
+/// wall clock has advanced by more than `tl` whole seconds, looks up again. Straddling a second boundary between the
+/// store and the first lookup is possible with tl = 0, so that step is retried.
+fn real_clock_case(tl: u64) -> String {
+    verif::set_clock(None);
+    let wall = || std::time::SystemTime::now().duration_since(std::time::UNIX_EPOCH).unwrap().as_secs();
+    for _attempt in 0..5 {
+        let mut c = Cache::verif_new(100, tl);
+        let t0 = wall();
+        c.set("/real", 0, gen_value(1, 10), MIMES[1]);
+        let first = c.get("/real", 0).map(|it| (it.cache_time, it.data.clone()));
+        let t1 = wall();
+        if t1 != t0 {
+            continue; // straddled a second boundary: run again
+        }
+        let (stamp, data) = match first {
+            Some(x) => x,
+            None => return format!("miss-immediately-after-set tl={}", tl),
+        };
+        if stamp != t0 || data != gen_value(1, 10) {
+            return format!("wrong-entry stamp={} wall={}", stamp, t0);
+        }
+        while wall() <= t0 + tl {
+            std::thread::sleep(std::time::Duration::from_millis(20));
+        }
+        return match c.get("/real", 0) {
+            None => "ok".to_string(),
+            Some(_) => format!("hit-after-expiry tl={}", tl),
+        };
+    }
+    "could-not-avoid-second-boundary".to_string()
+}
+
 pub fn dispatch(name: &str, args: &[&str]) -> Option<String> {
     match name {
+        "c16real" => Some(real_clock_case(args[0].parse().unwrap())),
         "c16exh" => Some(exh_case(
             args[0].parse().unwrap(),
             args[1].parse().unwrap(),
